@@ -280,6 +280,111 @@ fn check_sk(c: &SkCase, ctx: &mut CaseCtx) -> Result<(), Failure> {
     ctx.check(accepted(&lib) == rf, sig(P, "skzg", "verify", if rf { "rejects_where_relation_holds" } else { "accepts_where_relation_fails" }), || format!("{}: library {}, relation {rf}", names[k], lib.describe()))
 }
 
+/// Streaming KZG, batched multi-point verifier: e(sum_i eta^i C_i - [I(tau)]_1, g2) = e(pi, [Z(tau)]_2) with
+/// I = sum_i eta^i I_i, I_i the interpolant of polynomial i's claimed evaluations, Z the vanishing polynomial.
+fn check_sk_multi(c: &SkCase, ctx: &mut CaseCtx) -> Result<(), Failure> {
+    let polys: Vec<Vec<Fr>> = c.polys.iter().map(|(l, s, k)| sk_poly(*l, *s, *k)).collect();
+    let mut polys = polys;
+    let mut points = distinct_points(&c.points);
+    // ragged batches: one case in three shortens one polynomial (often the first) below the number of points
+    {
+        let s0 = c.polys[0].1;
+        if (s0 >> 28) % 3 == 0 && points.len() >= 2 {
+            let which = if (s0 >> 31) % 3 != 0 { 0 } else { (s0 >> 33) as usize % polys.len() };
+            let keep = 1 + (s0 >> 36) as usize % (points.len() - 1);
+            polys[which].truncate(keep);
+        }
+    }
+    let maxlen = polys.iter().map(|p| p.len()).max().unwrap();
+    let key_deg = ((maxlen - 1).max(points.len()) + 15) / 16 * 16;
+    let ck = super::c01::sk_keys(key_deg, 8, c.seed);
+    let vk = VerifierKey::from(&*ck);
+    let sck = CommitterKeyStream::from(&*ck);
+    let g1s: Vec<G1A> = sck.powers_of_g.0.to_vec();
+    let g2s: Vec<G2A> = sck.powers_of_g2.to_vec();
+    if g2s.len() < points.len() + 1 {
+        ctx.label("more_points_than_g2_powers");
+        return Ok(());
+    }
+    let s = c.polys[0].1;
+    let mut g = rng(s ^ 0xe7a);
+    let mut eta = Fr::rand(&mut g);
+    let mut evals: Vec<Vec<Fr>> = polys.iter().map(|p| points.iter().map(|z| horner(p, *z)).collect()).collect();
+    let refs: Vec<&Vec<Fr>> = polys.iter().collect();
+    let Out::Ok(mut proof) = guard_plain(|| ck.batch_open_multi_points(&refs, &points, &eta)) else { return Ok(()) };
+    let mut committed = polys.clone();
+    let names = ["none", "commitment", "evaluation", "point", "proof", "eta"];
+    let k = ((s >> 4) % names.len() as u64) as usize;
+    let (pi, zi) = ((s >> 12) as usize % polys.len(), (s >> 20) as usize % points.len());
+    match k {
+        1 => committed[pi] = sk_poly((s >> 8) as u16 % (key_deg as u16 + 1), s ^ 5, 0),
+        2 => evals[pi][zi] = Fr::rand(&mut g),
+        3 => {
+            let mut z = Fr::rand(&mut g);
+            while points.contains(&z) {
+                z = Fr::rand(&mut g);
+            }
+            points[zi] = z;
+        }
+        4 => proof = EvaluationProof(G1::rand(&mut g).into_affine()),
+        5 => eta = Fr::rand(&mut g),
+        _ => {}
+    }
+    if committed.iter().any(|p| p.len() > key_deg + 1 || p.len() > g1s.len()) {
+        return Ok(());
+    }
+    let Out::Ok(comms) = guard_plain(|| ck.batch_commit(&committed)) else { return Ok(()) };
+    let shorter_first = polys.len() >= 2 && polys[0].len() < points.len() && polys.iter().skip(1).any(|p| p.len() >= points.len());
+    ctx.label(&format!("component:{}", names[k]));
+    ctx.label_if(polys.len() >= 2, "several_polynomials");
+    ctx.label_if(shorter_first, "first_interpolant_shorter_than_a_later_one");
+    // reference
+    let naive = |bases: &[G1A], sc: &[Fr]| -> G1 { bases.iter().zip(sc).map(|(b, x)| b.into_group() * *x).sum() };
+    let mut cacc = G1::zero();
+    let mut iacc = vec![Fr::zero(); points.len()];
+    let mut pw = Fr::one();
+    for (i, f) in committed.iter().enumerate() {
+        cacc += naive(&g1s, f) * pw;
+        // Lagrange interpolant of (points, evals[i]) in coefficient form
+        for j in 0..points.len() {
+            let mut num = vec![Fr::one()];
+            let mut den = Fr::one();
+            for m in 0..points.len() {
+                if m != j {
+                    let mut nx = vec![Fr::zero(); num.len() + 1];
+                    for (t, cf) in num.iter().enumerate() {
+                        nx[t + 1] += *cf;
+                        nx[t] -= *cf * points[m];
+                    }
+                    num = nx;
+                    den *= points[j] - points[m];
+                }
+            }
+            let scale = evals[i][j] * den.inverse().unwrap() * pw;
+            for (t, cf) in num.iter().enumerate() {
+                iacc[t] += *cf * scale;
+            }
+        }
+        pw *= eta;
+    }
+    let mut z = vec![Fr::one()];
+    for x in &points {
+        let mut nx = vec![Fr::zero(); z.len() + 1];
+        for (t, cf) in z.iter().enumerate() {
+            nx[t + 1] += *cf;
+            nx[t] -= *cf * *x;
+        }
+        z = nx;
+    }
+    let z2: G2 = g2s.iter().zip(&z).map(|(b, x)| b.into_group() * *x).sum();
+    let rf = E::pairing(cacc - naive(&g1s, &iacc), g2s[0]) == E::pairing(proof.0, z2);
+    ctx.nontrivial_if(!rf || shorter_first);
+    let lib = guard(|| vk.verify_multi_points(&comms, &points, &evals, &proof, &eta).map(|_| true));
+    ctx.check(accepted(&lib) == rf, sig(P, "skzg", "verify_multi_points", if rf { "rejects_where_relation_holds" } else { "accepts_where_relation_fails" }), || {
+        format!("{} polynomials (lengths {:?}), {} points, component {}: library {}, relation {rf}", polys.len(), polys.iter().map(|p| p.len()).collect::<Vec<_>>(), points.len(), names[k], lib.describe())
+    })
+}
+
 pub fn spec() -> PropertySpec {
     let mut units: Vec<Box<dyn Unit>> = Vec::new();
     macro_rules! add {
@@ -305,9 +410,10 @@ pub fn spec() -> PropertySpec {
     units.push(PropUnit::new("C10:kzg10:relation", 400, 3200, 2, |_| kzg_case().boxed(), check_kzg));
     units.push(PropUnit::new("C10:mlpst:relation", 300, 2400, 2, |_| ml_case().boxed(), check_ml));
     units.push(PropUnit::new("C10:skzg:relation", 300, 2400, 2, |_| sk_case().boxed(), check_sk));
+    units.push(PropUnit::new("C10:skzg:multi-point-relation", 300, 2400, 2, |_| sk_case().boxed(), check_sk_multi));
     PropertySpec {
         id: "C10",
-        rule: "Accepting single-point transcripts generated as for C01; one verifier-visible component (each commitment part, degree-bound label, value, point or point coordinate, every proof field / first and last elements of proof vectors, every verifier-key element including shift elements - a key element stored plain and prepared is replaced in both forms) is replaced by another valid random element of the same type, chosen by the case. Oracle: library verifier decision (success vs Ok(false)/Err/abort) equals the harness's reference verifier: KZG/Marlin/Sonic/PST13/multilinear-PST pairing equations over challenge-combined commitments and values, the full IPA relation (round challenges from Blake2s over uncompressed encodings, L/R folding, succinct check polynomial by the harness's own product expansion, final key as naive sum over the key), Hyrax equations (13),(14) plus the opening of the evaluation commitment, the Ligero/Brakedown reference verifier (own index derivation, Merkle authentication, column and well-formedness consistency, lengths, <v,a> = value), streaming verify; all with the harness's own sponge replay. The unmodified transcript must satisfy the reference relation and be accepted. batch_check is compared with the conjunction of the reference relation over the point labels on one threaded sponge after replacing a value, point, proof part or key element in one label. Non-trivial: the reference says the relation fails after the replacement.",
+        rule: "Accepting single-point transcripts generated as for C01; one verifier-visible component (each commitment part, degree-bound label, value, point or point coordinate, every proof field / first and last elements of proof vectors, every verifier-key element including shift elements - a key element stored plain and prepared is replaced in both forms) is replaced by another valid random element of the same type, chosen by the case. Oracle: library verifier decision (success vs Ok(false)/Err/abort) equals the harness's reference verifier: KZG/Marlin/Sonic/PST13/multilinear-PST pairing equations over challenge-combined commitments and values, the full IPA relation (round challenges from Blake2s over uncompressed encodings, L/R folding, succinct check polynomial by the harness's own product expansion, final key as naive sum over the key), Hyrax equations (13),(14) plus the opening of the evaluation commitment, the Ligero/Brakedown reference verifier (own index derivation, Merkle authentication, column and well-formedness consistency, lengths, <v,a> = value), streaming verify and verify_multi_points (sum_i eta^i C_i against the eta-combination of the interpolants of the claimed evaluations and the vanishing polynomial in G2, for ragged polynomial lengths; commitment, evaluation, point, proof or eta replaced); all with the harness's own sponge replay. The unmodified transcript must satisfy the reference relation and be accepted. batch_check is compared with the conjunction of the reference relation over the point labels on one threaded sponge after replacing a value, point, proof part or key element in one label. Non-trivial: the reference says the relation fails after the replacement.",
         assumptions: vec![
             "the relations implemented by the reference verifiers are the schemes' published ones (module docs and the papers they cite)",
             "commitment replacements inside batches are left to C02 (one commitment per label is shared by all labels)",
